@@ -158,7 +158,7 @@ fn check_model(rep: &Report, what: &str, rm: &RModel, m: &Model, states: std::op
                 Ok((g, idx)) => {
                     g.parameters.len() == want.len()
                         && g.parameters.iter().zip(&want).all(|(g, w)| g.0.to_bits() == w.0.to_bits() && g.1.to_bits() == w.1.to_bits())
-                        && g.msd.map(|x| x.to_bits()) == wmsd.map(|x| x.to_bits())
+                        && g.msd.opt().map(|x| x.to_bits()) == wmsd.map(|x| x.to_bits())
                         && idx.1 == Some(leaf)
                         && idx.0 == Some(ti + 2)
                 }
@@ -435,8 +435,9 @@ fn build_file(fc: &FileCfg, pool: &[(String, Vec<String>)], all_shapes: &[TreeSp
         // optorder 6..: entries the engine does not know (a bare token without '=', an unknown key) at each position;
         // they are skipped, whatever stands behind them still counts
         if fc.optorder >= 6 {
-            let extra = if fc.optorder % 2 == 0 { "MEL_CEPSTRUM" } else { "FOO=1" };
-            v.insert(((fc.optorder - 6) / 2) as usize % 4, extra.to_string());
+            // a bare token, an unknown key, and unknown keys that merely contain a known key
+            let extra = ["MEL_CEPSTRUM", "FOO=1", "POSTFILTER_ALPHA=0.9", "MGC_GAMMA=3", "X_LN_GAIN=0", "ALPHAX=0.9", "GAMMA_2=1", "NO_LN_GAIN_HERE"][(fc.optorder as usize) % 8];
+            v.insert(((fc.optorder - 6) / 8) as usize % 4, extra.to_string());
         }
         v
     };
@@ -782,7 +783,7 @@ pub fn run(tier: Tier) -> i32 {
                         files.push(FileCfg { shape, assign, quoted, qtriple: *t, nstate: l.0, ns: l.1, vlen: l.2, wset: l.3, ..default.clone() });
                         // the same file with the spectrum options in each other order, and with other stream keys
                         if ti == 0 && li == 0 && assign == 0 {
-                            for optorder in 1..14u8 {
+                            for optorder in 1..38u8 {
                                 files.push(FileCfg { shape, assign, quoted, qtriple: *t, nstate: l.0, ns: l.1, vlen: l.2, wset: l.3, optorder, names: optorder % 2, ..default.clone() });
                             }
                         }
@@ -888,7 +889,7 @@ pub fn run(tier: Tier) -> i32 {
                     let got = catch(|| (m.get_parameter(st, &lc.label).clone(), m.get_index(st, &lc.label)));
                     let ok = match &got {
                         Err(_) => false,
-                        Ok((g, idx)) => g.parameters.len() == want.len() && g.parameters.iter().zip(&want).all(|(g, w)| g.0.to_bits() == w.0.to_bits() && g.1.to_bits() == w.1.to_bits()) && g.msd.map(|x| x.to_bits()) == wmsd.map(|x| x.to_bits()) && idx.1 == Some(leaf),
+                        Ok((g, idx)) => g.parameters.len() == want.len() && g.parameters.iter().zip(&want).all(|(g, w)| g.0.to_bits() == w.0.to_bits() && g.1.to_bits() == w.1.to_bits()) && g.msd.opt().map(|x| x.to_bits()) == wmsd.map(|x| x.to_bits()) && idx.1 == Some(leaf),
                     };
                     if !ok {
                         rep.violation("generated-lookup", format!("model {} state {}: crate returns {:?}, the file's tree selects leaf {} with first float {:?}", ms.prefix, st, got.map(|g| (g.1, g.0.parameters.first().cloned())), leaf, p.first()), json!({"file": name, "model": ms.prefix, "state": st, "label": lc.text}));
